@@ -95,7 +95,7 @@ theorem set_eq_pos {c : Cache κ ν} (k : κ) (v : ν) (ttl : Int) (sz : Nat)
     set c k v ttl sz =
       ({ c with entries := (k, ⟨v, c.now + ttl, sz⟩) :: erase k c.entries,
                 tracked := if c.sizeOn then c.tracked + (sz : Nat) else c.tracked,
-                pending := insertSleeper ⟨c.now + ttl, k⟩ c.pending }, .ok) := by
+                pending := insertSleeper ⟨c.mono + ttl, k⟩ c.pending }, .ok) := by
   unfold set
   have hcond : (c.sizeOn && decide (c.tracked + (sz : Nat) > c.max)) = false := by
     cases hs : c.sizeOn with
@@ -196,13 +196,13 @@ theorem find?_set_ok_pos {c : Cache κ ν} {k : κ} {v : ν} {ttl : Int} {sz : N
 
 theorem fire_cases (c : Cache κ ν) (i : Nat) :
     fire c i = (c, .absent) ∨ fire c i = (c, .notDue) ∨
-    ∃ s, c.pending[i]? = some s ∧ s.due ≤ c.now ∧
+    ∃ s, c.pending[i]? = some s ∧ s.due ≤ c.mono ∧
       fire c i = ({ clearKey c s.key with pending := c.pending.eraseIdx i }, .fired) := by
   unfold fire
   cases hp : c.pending[i]? with
   | none => left; rfl
   | some s =>
-    by_cases hd : s.due ≤ c.now
+    by_cases hd : s.due ≤ c.mono
     · right; right; exact ⟨s, rfl, hd, by simp [hd]⟩
     · right; left; simp [hd]
 
@@ -316,6 +316,7 @@ theorem sizeInv_step {c : Cache κ ν} (ev : Ev κ ν) (h : SizeInv c) : SizeInv
   | fire i => exact sizeInv_fire i h
   | skip d => exact h
   | adv d => exact sizeInv_adv d h
+  | wstep d => exact h
   | probe => exact h
 
 theorem step_sizeOn (c : Cache κ ν) (ev : Ev κ ν) : (step c ev).1.sizeOn = c.sizeOn := by
